@@ -740,6 +740,11 @@ class FuelHandler:
             )
             return
 
+        if a1 is a2:
+            # nothing to exchange; going on would take the stationary blocks out of the assembly
+            runLog.warning(f"Cannot swap {a1} with itself. Skipping swap")
+            return
+
         runLog.extra("Swapping {} with {}.".format(a1, a2))
         # add assemblies into the moved location
         for a in [a1, a2]:
